@@ -9,7 +9,7 @@ prop("C09",
      min_nontrivial={"quick": 4000, "thorough": 80000},
      min_obs={"quick": {"values_checked": 5000, "gradient_voxels_checked": 300000, "hessian_rows_checked": 200000,
                         "symmetry_pairs_checked": 1000000, "psd_checks": 15000,
-                        "prior_quadratic": 1000, "prior_rdp": 1000, "prior_logcosh": 800, "prior_pls": 400,
+                        "prior_quadratic": 1000, "prior_rdp": 1000, "prior_logcosh": 800, "cfg_logcosh_scalar_times_difference_beyond_30": 150, "prior_pls": 400,
                         "singleton_axis_cases": 800, "user_weights_cases": 1000, "user_weights_5_cases": 200,
                         "user_weights_2d_cases": 200, "only_2d_effective_cases": 200, "kappa_cases": 1500,
                         "hessian_unit_image_products": 100000, "hessian_border_rows_checked": 100000,
